@@ -210,6 +210,167 @@ fn case_beautify(c: &J, peers: &Peers) -> J {
     }
 }
 
+/// execute a (parseable) generated script on a single peer, answering every request, and watch for death
+fn case_runscript(c: &J, peers: &Peers) -> J {
+    let a: Instr = match serde_json::from_value(c["script"].clone()) {
+        Ok(a) => a,
+        Err(e) => return json!({"exec_died": "", "rounds": 0, "res": format!("badcase {e}")}),
+    };
+    let text = ast::render(&a, peers);
+    let mut prev: Vec<u8> = vec![];
+    let mut results = CallResults::new();
+    let mut last_code = 0;
+    for round in 0..8 {
+        let o = net::run_raw(peers, &text, &prev, &[], "A", "A", "particle-1", &Limits::default(), &results);
+        if let Some(d) = o.died {
+            return json!({"exec_died": d, "rounds": round, "res": "died"});
+        }
+        last_code = o.code;
+        let reqs = net::decode_requests(&o.reqs_bytes, peers).unwrap_or_default();
+        results = CallResults::new();
+        prev = o.data;
+        if reqs.is_empty() {
+            break;
+        }
+        for (id, r) in reqs.iter() {
+            let sr = crate::services::service("l2", &r.func, &r.args);
+            results.insert(id.to_string(), CallServiceResult { ret_code: sr.ret_code, result: sr.body });
+        }
+    }
+    json!({"exec_died": "", "rounds": 0, "res": "ok", "code": last_code.clamp(-1, (1 << 31) - 1)})
+}
+
+/// token-level mutation of a catalogue script text, then every text entry point
+fn case_text(c: &J, peers: &Peers) -> J {
+    let (script, _) = crate::attack::base_script(c["base"].as_str().unwrap_or("SM1"));
+    let text = ast::render(&script, peers);
+    // tokens: parentheses, brackets and whitespace-separated words
+    let mut toks: Vec<String> = vec![];
+    let mut cur = String::new();
+    let mut in_str = false;
+    for ch in text.chars() {
+        if in_str {
+            cur.push(ch);
+            if ch == '"' {
+                in_str = false;
+                toks.push(std::mem::take(&mut cur));
+            }
+        } else if ch == '"' {
+            if !cur.is_empty() {
+                toks.push(std::mem::take(&mut cur));
+            }
+            cur.push(ch);
+            in_str = true;
+        } else if ch == '(' || ch == ')' || ch == '[' || ch == ']' {
+            if !cur.is_empty() {
+                toks.push(std::mem::take(&mut cur));
+            }
+            toks.push(ch.to_string());
+        } else if ch.is_whitespace() {
+            if !cur.is_empty() {
+                toks.push(std::mem::take(&mut cur));
+            }
+        } else {
+            cur.push(ch);
+        }
+    }
+    if !cur.is_empty() {
+        toks.push(cur);
+    }
+    let n = toks.len();
+    let pos = (c["pos"].as_u64().unwrap_or(0) as usize * n / 16).min(n.saturating_sub(1));
+    match c["op"].as_str().unwrap_or("") {
+        "drop" => {
+            toks.remove(pos);
+        }
+        "dup" => {
+            let t = toks[pos].clone();
+            toks.insert(pos, t);
+        }
+        "swap" => {
+            if pos + 1 < n {
+                toks.swap(pos, pos + 1);
+            }
+        }
+        "open" => toks.insert(pos, "(".into()),
+        "close" => toks.insert(pos, ")".into()),
+        "trunc" => toks.truncate(pos),
+        "quote" => toks.insert(pos, "\"".into()),
+        "deep" => {
+            let mut pre: Vec<String> = (0..2000).flat_map(|_| vec!["(".to_string(), "seq".to_string()]).collect();
+            pre.extend(toks.clone());
+            toks = pre;
+        }
+        "verydeep" => {
+            // balanced: (seq (seq ... <script> (null)) (null))
+            let depth = 100_000;
+            let mut pre: Vec<String> = (0..depth).flat_map(|_| vec!["(".to_string(), "seq".to_string()]).collect();
+            pre.extend(toks.clone());
+            for _ in 0..depth {
+                pre.extend(["(".to_string(), "null".to_string(), ")".to_string(), ")".to_string()]);
+            }
+            toks = pre;
+        }
+        "long" => toks.insert(pos, "x".repeat(200_000)),
+        "lens" => toks.insert(pos, "x.$.[0].a.[1].!.$.$".into()),
+        "num" => toks.insert(pos, "99999999999999999999999999999999".into()),
+        _ => {}
+    }
+    let mutated = toks.join(" ");
+    let m1 = mutated.clone();
+    let parse = match std::panic::catch_unwind(move || air_parser::parse(&m1).is_ok()) {
+        Ok(true) => "ok",
+        Ok(false) => "err",
+        Err(_) => "panic",
+    };
+    let m2 = mutated.clone();
+    let beaut = match std::panic::catch_unwind(move || air_beautifier::beautify_to_string(&m2).is_ok()) {
+        Ok(true) => "ok",
+        Ok(false) => "err",
+        Err(_) => "panic",
+    };
+    let none = CallResults::new();
+    let o = net::run_raw(peers, &mutated, &[], &[], "A", "A", "particle-1", &Limits::default(), &none);
+    json!({"parse": parse, "beautify": beaut, "exec_died": o.died.clone().unwrap_or_default(), "exec_code": o.code.clamp(-1, (1 << 31) - 1)})
+}
+
+/// byte-level mutation of honest data, fed to the data entry points (execute as current data, pretty-printing)
+fn case_bytes(c: &J, b: &Base, peers: &Peers) -> J {
+    let mut d = b.a2.clone();
+    let n = d.len();
+    let pos = (c["pos"].as_u64().unwrap_or(0) as usize * n / 64).min(n.saturating_sub(1));
+    match c["op"].as_str().unwrap_or("") {
+        "flip" => d[pos] ^= 0xff,
+        "zero" => d[pos] = 0,
+        "ff" => d[pos] = 0xff,
+        "trunc" => d.truncate(pos),
+        "dup" => {
+            let tail = d[pos..].to_vec();
+            d.extend(tail);
+        }
+        "ins" => {
+            for _ in 0..8 {
+                d.insert(pos, 0xff);
+            }
+        }
+        _ => {}
+    }
+    let none = CallResults::new();
+    let o = net::run_raw(peers, &b.script, &b.b1, &d, "A", "B", "particle-1", &Limits::default(), &none);
+    let d2 = d.clone();
+    let mut pretty_msg = String::new();
+    let hr = match std::panic::catch_unwind(move || air::to_human_readable_data(d2).is_ok()) {
+        Ok(true) => "ok",
+        Ok(false) => "err",
+        Err(e) => {
+            pretty_msg = e.downcast_ref::<String>().cloned().or_else(|| e.downcast_ref::<&str>().map(|s| s.to_string())).unwrap_or_default();
+            "panic"
+        }
+    };
+    json!({"exec_died": o.died.clone().unwrap_or_default(), "exec_code": o.code.clamp(-1, (1 << 31) - 1), "eqprev": o.data == b.b1,
+           "pretty": hr, "pretty_msg": net::truncate(&pretty_msg, 200)})
+}
+
 pub fn cmd_fn(args: &[String]) -> i32 {
     let inp = crate::arg(args, "--in").expect("--in");
     let outp = crate::arg(args, "--out").expect("--out");
@@ -218,10 +379,19 @@ pub fn cmd_fn(args: &[String]) -> i32 {
     let f = std::fs::File::open(&inp).expect("open input");
     let mut w = BufWriter::new(std::fs::File::create(&outp).expect("create output"));
     let mut n = 0u64;
+    let skip = crate::arg(args, "--skip").and_then(|s| s.parse::<u64>().ok()).unwrap_or(0);
+    let journal = crate::arg(args, "--journal");
     for line in std::io::BufReader::new(f).lines() {
         let line = line.expect("read");
         if line.trim().is_empty() {
             continue;
+        }
+        if n < skip {
+            n += 1;
+            continue;
+        }
+        if let Some(jp) = &journal {
+            let _ = std::fs::write(jp, format!("{}\n{}\n", n + 1, line));
         }
         let c: J = match serde_json::from_str(&line) {
             Ok(v) => v,
@@ -236,11 +406,15 @@ pub fn cmd_fn(args: &[String]) -> i32 {
             "lens" => case_lens(&c, &peers),
             "parse" => case_parse(&c, &peers),
             "beautify" => case_beautify(&c, &peers),
+            "text" => case_text(&c, &peers),
+            "runscript" => case_runscript(&c, &peers),
+            "bytes" => case_bytes(&c, &b, &peers),
             other => json!({"res": format!("unknown family {other}")}),
         };
         n += 1;
         serde_json::to_writer(&mut w, &json!({"k": "fn", "n": n, "case": c, "obs": obs})).expect("write");
         w.write_all(b"\n").expect("write");
+        w.flush().expect("flush");
     }
     w.flush().expect("flush");
     println!("{}", json!({"cases": n}));
